@@ -408,7 +408,7 @@ impl Property for C15 {
          chosen from all valid ones (absolute dotted path, or k leading dots for any k up to the common prefix with the scope chain at the point of use), a quarter of the cases with one fault (unknown name, a reference with more leading dots than enclosing symbols in front of an existing name, a dotted path through an undeclared parent that ends in the name of a global, skipped nesting level, duplicate declaration); one case in five carries `#bank` directives between declarations and uses (a bank switch declares nothing), one in eight a reverse chain of 6-30 constants read by the first item. Oracle = R-SCOPE + R-LAYOUT: the reference resolves each reference and gives bits and symbol table, or rejects. \
          Metamorphic part: global address-free constants standing at scope-neutral positions are moved to the end/start of the file; the moved program must assemble to the same bits; \
          and runs of items that declare no global symbol are wrapped into selected #if / #else / #elif arms (dead arms hold decoys), which must give the same bits and symbol table. \
-         Non-trivial = a name is declared under >= 2 parents and the case has >= 3 references; distinct by hash of the source."
+         Non-trivial = a name is declared under >= 2 parents and the case has >= 3 references; distinct by hash of the source. (v4) a third of the cases make two thirds of their references from inside a SUB-RULE operand: `rq {<name of a global of the case>: u8}, {src: opq} => src` used as `rq 0xa5, <reference>` - the operand is the user's text and names the symbol, never the rule's parameter."
             .to_string()
     }
     fn tape_len(&self, _t: Tier) -> usize {
